@@ -309,7 +309,7 @@ pub fn cli_images(args: &[String]) -> i32 {
     let b = Batch { seed, engine: ENGINE_IMAGES, runs, workers };
     let perm_fail: std::sync::Mutex<Option<(u64, u64, serde_json::Value)>> = std::sync::Mutex::new(None);
     let locals: Vec<ImgLocal> = batch::run_batch(&b, |k, rs, l: &mut ImgLocal| {
-        let w = Workload { spec: threads::generate_big_spec(rs), hays: vec![], threads: vec![] };
+        let w = Workload { spec: threads::generate_big_spec(rs), hays: vec![], threads: vec![], provenance: 0 };
         l.lines.push((k, format!("{k} {rs} {}\n", image_hash(&w.spec))));
         // permutation independence on the same spec (no schedule involved: plain seeded sampling)
         if w.spec.kind != crate::pma::Kind::LeftmostFirst && w.spec.patterns.len() > 1 {
